@@ -431,6 +431,7 @@ def correspond(ctx, corr):
     check_ls(ctx, corr, ctx.size(12, 400))
     check_planted(ctx, corr, ctx.size(36, 1200))
     c02.check_decision(ctx, corr, ctx.size(200, 5000))
+    c02.check_singular(ctx, corr, ctx.size(150, 3000))
 
 
 def search(ctx, broken, corr):
